@@ -841,3 +841,217 @@ Proof.
     + rewrite born_X_example. apply in_range_mid; lra.
   - intros bs [<-|[<-|[<-|[]]]]; reflexivity.
 Qed.
+
+(* ================================================================================================
+   Audit follow-up (b.md M4 / rule 4).  (i) Targets with EXACTLY-ZERO probabilities (basis states, GHZ-like
+   states): the clamp makes t * plogit t = 0 for t = 0, so the KL equalities and Gibbs' inequality extend to
+   target entries in {0} u [eps, 1 - eps].  Entries in (0, eps) or (1 - eps, 1] (e.g. a target probability that is
+   exactly 1) stay OUTSIDE every KL/NLL theorem: there plogit is not the logarithm (plogit 1 = ln (1 - eps)).
+   (ii) Guarded restatements: no theorem below relies on x / 0 = 0, on an empty list of bases / samples, or on
+   the truncating zip of lists of different lengths.  The unguarded lemmas above are kept (other files use them). *)
+Definition zero_or_range (t : R) : Prop := t = 0 \/ in_range t.
+Definition dists_ok0 (T Q : list R) : Prop := length T = length Q /\ Forall zero_or_range T /\ Forall in_range Q.
+
+Lemma dists_ok_weaken T Q : dists_ok T Q -> dists_ok0 T Q.
+Proof.
+  intros [Hl [Ht Hq]]. split; [exact Hl|split; [|exact Hq]].
+  eapply Forall_impl; [|exact Ht]. intros a Ha; right; exact Ha.
+Qed.
+
+Lemma single_basis_KL_is_kl_div0 t q :
+  length t = length q -> Forall zero_or_range t -> Forall in_range q ->
+  single_basis_KL ROps t q = kl_div t q.
+Proof.
+  revert q; induction t as [|a t IH]; intros [|b q] Hlen Ht Hq; try discriminate.
+  - rewrite single_basis_KL_nil. reflexivity.
+  - inversion Ht as [|? ? Ha Ht']; inversion Hq as [|? ? Hb Hq']; subst.
+    rewrite single_basis_KL_cons, IH by (try assumption; simpl in Hlen; lia).
+    unfold kl_div; cbn [combine map sum fst snd nadd ROps].
+    destruct Ha as [->|Ha]; [ring|].
+    rewrite !plogit_in_range by assumption.
+    pose proof (in_range_pos a Ha). pose proof (in_range_pos b Hb).
+    unfold Rdiv. rewrite ln_mult by (try apply Rinv_0_lt_compat; assumption).
+    rewrite ln_Rinv by assumption. ring.
+Qed.
+
+Lemma gibbs_general0 t q :
+  length t = length q -> Forall (fun x => 0 <= x) t -> Forall (fun x => 0 < x) q ->
+  sum ROps t - sum ROps q <= kl_div t q.
+Proof.
+  revert q; induction t as [|a t IH]; intros [|b q] Hlen Ht Hq; try discriminate.
+  - unfold kl_div; cbn. lra.
+  - inversion Ht as [|? ? Ha Ht']; inversion Hq as [|? ? Hb Hq']; subst.
+    assert (IH' : sum ROps t - sum ROps q <= kl_div t q) by (apply IH; try assumption; simpl in Hlen; lia).
+    destruct Ha as [Ha|<-].
+    + pose proof (gibbs_general [a] [b] eq_refl (Forall_cons _ Ha (Forall_nil _)) (Forall_cons _ Hb (Forall_nil _))) as H1.
+      unfold kl_div in *; cbn [combine map sum fst snd nadd n0 ROps] in *. lra.
+    + unfold kl_div in *; cbn [combine map sum fst snd nadd ROps]. lra.
+Qed.
+
+Lemma kl_div_nonneg0 t q :
+  length t = length q -> Forall (fun x => 0 <= x) t -> Forall (fun x => 0 < x) q ->
+  sum ROps t = sum ROps q -> 0 <= kl_div t q.
+Proof. intros Hl Ht Hq Hs. pose proof (gibbs_general0 t q Hl Ht Hq). lra. Qed.
+
+Lemma Forall_zero_or_range_nonneg l : Forall zero_or_range l -> Forall (fun x => 0 <= x) l.
+Proof. apply Forall_impl. intros a [->|Ha]; [lra | left; apply in_range_pos, Ha]. Qed.
+
+Lemma kl_pure_is_mean_of_basis_kl0 user tgt psi Z bases :
+  bases <> [] ->
+  (forall b, In b bases -> dists_ok0 (target_dist_pure tgt b) (model_dist_pure user psi Z b)) ->
+  fst (kl_bases_pure ROps user tgt psi Z bases) =
+  mean_over (fun b => kl_div (target_dist_pure tgt b) (model_dist_pure user psi Z b)) bases.
+Proof.
+  intros _ H. rewrite kl_bases_pure_value. apply mean_over_ext; intros b Hb.
+  rewrite kl_basis_pure_unfold. destruct (H b Hb) as [Hl [Ht Hq]].
+  apply single_basis_KL_is_kl_div0; assumption.
+Qed.
+
+Lemma kl_mixed_is_mean_of_basis_kl0 user tgt rho Z space bases :
+  bases <> [] ->
+  (forall b, In b bases -> dists_ok0 (tgt b) (model_dist_mixed user rho Z space b)) ->
+  fst (kl_bases_mixed ROps user tgt rho Z space bases) =
+  mean_over (fun b => kl_div (tgt b) (model_dist_mixed user rho Z space b)) bases.
+Proof.
+  intros _ H. rewrite kl_bases_mixed_value. apply mean_over_ext; intros b Hb.
+  rewrite kl_basis_mixed_unfold. destruct (H b Hb) as [Hl [Ht Hq]].
+  apply single_basis_KL_is_kl_div0; assumption.
+Qed.
+
+Lemma kl_pure_nonneg0 user tgt psi Z bases :
+  bases <> [] ->
+  (forall b, In b bases -> dists_ok0 (target_dist_pure tgt b) (model_dist_pure user psi Z b)) ->
+  (forall b, In b bases -> sum ROps (target_dist_pure tgt b) = 1 /\ sum ROps (model_dist_pure user psi Z b) = 1) ->
+  0 <= fst (kl_bases_pure ROps user tgt psi Z bases).
+Proof.
+  intros Hne H Hs. rewrite kl_pure_is_mean_of_basis_kl0 by assumption.
+  apply mean_over_nonneg; intros b Hb. destruct (H b Hb) as [Hl [Ht Hq]]. destruct (Hs b Hb) as [S1 S2].
+  apply kl_div_nonneg0; try assumption;
+    [apply Forall_zero_or_range_nonneg; assumption | apply Forall_in_range_pos; assumption | lra].
+Qed.
+
+Lemma kl_mixed_nonneg0 user tgt rho Z space bases :
+  bases <> [] ->
+  (forall b, In b bases -> dists_ok0 (tgt b) (model_dist_mixed user rho Z space b)) ->
+  (forall b, In b bases -> sum ROps (tgt b) = 1 /\ sum ROps (model_dist_mixed user rho Z space b) = 1) ->
+  0 <= fst (kl_bases_mixed ROps user tgt rho Z space bases).
+Proof.
+  intros Hne H Hs. rewrite kl_mixed_is_mean_of_basis_kl0 by assumption.
+  apply mean_over_nonneg; intros b Hb. destruct (H b Hb) as [Hl [Ht Hq]]. destruct (Hs b Hb) as [S1 S2].
+  apply kl_div_nonneg0; try assumption;
+    [apply Forall_zero_or_range_nonneg; assumption | apply Forall_in_range_pos; assumption | lra].
+Qed.
+
+Lemma kl_none_pure_is_kl0 target pr Z space :
+  let T := map cn2 target in let Q := map (fun v => pr v / Z) space in
+  dists_ok0 T Q -> fst (kl_none_pure ROps target pr Z space) = kl_div T Q.
+Proof.
+  cbv zeta. intros [Hl [Ht Hq]]. unfold kl_none_pure; cbn [fst ndiv ROps].
+  rewrite (map_ext (abs_sq ROps) cn2 abs_sq_R). apply single_basis_KL_is_kl_div0; assumption.
+Qed.
+
+Lemma kl_none_mixed_is_kl0 target pr Z space :
+  let T := diag_real ROps target in let Q := map (fun v => pr v / Z) space in
+  dists_ok0 T Q -> fst (kl_none_mixed ROps target pr Z space) = kl_div T Q.
+Proof.
+  cbv zeta. intros [Hl [Ht Hq]]. unfold kl_none_mixed; cbn [fst ndiv ROps].
+  apply single_basis_KL_is_kl_div0; assumption.
+Qed.
+
+Lemma kl_none_nonneg_pure0 target pr Z space :
+  let T := map cn2 target in let Q := map (fun v => pr v / Z) space in
+  dists_ok0 T Q -> sum ROps T = 1 -> sum ROps Q = 1 -> 0 <= fst (kl_none_pure ROps target pr Z space).
+Proof.
+  cbv zeta. intros H S1 S2. rewrite kl_none_pure_is_kl0 by exact H. destruct H as [Hl [Ht Hq]].
+  apply kl_div_nonneg0; try assumption;
+    [apply Forall_zero_or_range_nonneg; assumption | apply Forall_in_range_pos; assumption | lra].
+Qed.
+
+Lemma kl_none_nonneg_mixed0 target pr Z space :
+  let T := diag_real ROps target in let Q := map (fun v => pr v / Z) space in
+  dists_ok0 T Q -> sum ROps T = 1 -> sum ROps Q = 1 -> 0 <= fst (kl_none_mixed ROps target pr Z space).
+Proof.
+  cbv zeta. intros H S1 S2. rewrite kl_none_mixed_is_kl0 by exact H. destruct H as [Hl [Ht Hq]].
+  apply kl_div_nonneg0; try assumption;
+    [apply Forall_zero_or_range_nonneg; assumption | apply Forall_in_range_pos; assumption | lra].
+Qed.
+
+(* guarded restatements *)
+Lemma fidelity_pure_is_overlap_g t psi Z :
+  length t = length psi -> 0 < Z -> fst (fidelity_pure ROps t psi Z) = cn2 (overlap t psi) / Z.
+Proof. intros _. apply fidelity_pure_is_overlap. Qed.
+
+Lemma fidelity_pure_in_unit_interval_g t psi Z :
+  length t = length psi -> sum ROps (map cn2 t) = 1 -> sum ROps (map cn2 psi) = Z -> 0 < Z ->
+  0 <= fst (fidelity_pure ROps t psi Z) <= 1.
+Proof. intros _. apply fidelity_pure_in_unit_interval. Qed.
+
+Lemma fidelity_pure_global_phase_invariant_g theta t psi Z :
+  length t = length psi -> 0 < Z ->
+  fidelity_pure ROps (map (cmul ROps (cexp_i ROps theta)) t) psi Z = fidelity_pure ROps t psi Z.
+Proof. intros _ _. apply fidelity_pure_global_phase_invariant. Qed.
+
+Lemma kl_pure_self_zero_g user psi Z bases :
+  bases <> [] -> 0 < Z ->
+  fst (kl_bases_pure ROps user (tgt_rotate_psi ROps user (map (rdiv (sqrt Z)) psi)) psi Z bases) = 0.
+Proof. intros _. apply kl_pure_self_zero. Qed.
+
+Lemma kl_mixed_self_zero_g user (rho : bits -> bits -> Cx) Z space bases :
+  bases <> [] -> 0 < Z ->
+  fst (kl_bases_mixed ROps user (tgt_rotate_rho ROps user (fun v v' => rdiv Z (rho v v')) space) rho Z space bases) = 0.
+Proof. intros _ _. apply kl_mixed_self_zero. Qed.
+
+Lemma kl_pure_zero_of_equal_dists_g user tgt psi Z bases :
+  bases <> [] -> (forall b, In b bases -> target_dist_pure tgt b = model_dist_pure user psi Z b) ->
+  fst (kl_bases_pure ROps user tgt psi Z bases) = 0.
+Proof. intros _. apply kl_pure_zero_of_equal_dists. Qed.
+
+Lemma kl_mixed_zero_of_equal_dists_g user tgt rho Z space bases :
+  bases <> [] -> (forall b, In b bases -> tgt b = model_dist_mixed user rho Z space b) ->
+  fst (kl_bases_mixed ROps user tgt rho Z space bases) = 0.
+Proof. intros _. apply kl_mixed_zero_of_equal_dists. Qed.
+
+Lemma nll_groups_is_mean_neg_log_born_g user st pr Z groups samples :
+  samples <> [] -> 0 < Z ->
+  Permutation (flatten_groups groups) samples ->
+  (forall bs, In bs samples -> sample_ok user st pr Z bs) ->
+  fst (nll_groups ROps user st pr Z groups (length samples)) = mean_neg_log_born user st Z samples.
+Proof. intros _ _. apply nll_groups_is_mean_neg_log_born. Qed.
+
+Lemma nll_bases_is_mean_neg_log_born_g user st pr Z ub samples :
+  samples <> [] -> 0 < Z ->
+  (forall bs, In bs samples -> count_basis ub (fst bs) = 1%nat) ->
+  (forall bs, In bs samples -> sample_ok user st pr Z bs) ->
+  fst (nll_bases ROps user st pr Z ub samples) = mean_neg_log_born user st Z samples.
+Proof. intros _ _. apply nll_bases_is_mean_neg_log_born. Qed.
+
+Lemma nll_bases_auto_is_mean_neg_log_born_g user st pr Z samples :
+  samples <> [] -> 0 < Z ->
+  (forall bs, In bs samples -> sample_ok user st pr Z bs) ->
+  fst (nll_bases_auto ROps user st pr Z samples) = mean_neg_log_born user st Z samples.
+Proof. intros _ _. apply nll_bases_auto_is_mean_neg_log_born. Qed.
+
+Lemma nll_plain_is_mean_neg_log_g pr Z samples :
+  samples <> [] -> 0 < Z ->
+  (forall s, In s samples -> in_range (pr s / Z)) ->
+  fst (nll_plain ROps pr Z samples) = - (sum ROps (map (fun s => ln (pr s / Z)) samples)) / INR (length samples).
+Proof. intros _ _. apply nll_plain_is_mean_neg_log. Qed.
+
+Lemma born_allZ_g user st Z b s :
+  0 < Z -> all_Z b = true -> length b = length s -> born user st Z b s = diag_prob st s / Z.
+Proof. intros _. apply born_allZ. Qed.
+
+(* non-vacuity of the zero-extended hypotheses: a basis-state target (1/2-1/2 after an X rotation is covered by
+   dists_ok; here the computational-basis distribution of a GHZ-like two-qubit target: (1/2, 0, 0, 1/2)) *)
+Example kl_hyps0_satisfiable :
+  let T := [/ 2; 0; 0; / 2] in let Q := [/ 4; / 4; / 4; / 4] in
+  dists_ok0 T Q /\ sum ROps T = 1 /\ sum ROps Q = 1 /\ ~ dists_ok T Q.
+Proof.
+  cbv zeta. split; [split; [reflexivity|split]|split; [|split]].
+  - repeat (apply Forall_cons; [first [left; reflexivity | right; apply in_range_mid; lra]|]). apply Forall_nil.
+  - repeat (apply Forall_cons; [apply in_range_mid; lra|]). apply Forall_nil.
+  - cbn; lra.
+  - cbn; lra.
+  - intros [_ [Ht _]]. inversion Ht as [|? ? _ Ht1]; subst. inversion Ht1 as [|? ? H0 _]; subst.
+    pose proof (in_range_pos 0 H0). lra.
+Qed.
